@@ -54,6 +54,7 @@ pub fn fingerprint(g: &GameState, deep: bool) -> u64 {
         fold(&mut h, &a);
     }
     fold(&mut h, &g.is_terminal().map(|t| t == Terminal::GoldWin));
+    fold(&mut h, &g.has_move(g.piece_board()).map(|t| t == Terminal::GoldWin));
     fnv(&mut h, &g.transposition_hash().to_le_bytes());
     if !light {
         fnv(&mut h, g.to_string().as_bytes());
@@ -427,4 +428,37 @@ pub fn concurrent_last_owner_drop(n: usize, k: usize, rounds: usize) -> (usize, 
         }
     }
     (worst, freed_by_worst)
+}
+
+
+/// Cold start: the very first engine calls of the process are made by `n` threads at the same
+/// time (each plays the same deterministic playout from GameState::initial() and expands it), so
+/// that lazily initialised process-wide state is first touched concurrently. All threads must get
+/// identical results, equal to a later single-threaded recomputation.
+pub fn cold_start(n: usize, seed: u64, turns: u32, depth: u32) -> (usize, usize) {
+    use std::sync::atomic::{AtomicUsize, Ordering};
+    let gate = Arc::new(AtomicUsize::new(0));
+    let hs: Vec<_> = (0..n)
+        .map(|_| {
+            let gate = Arc::clone(&gate);
+            std::thread::spawn(move || {
+                gate.fetch_add(1, Ordering::AcqRel);
+                while gate.load(Ordering::Acquire) < n {
+                    std::hint::spin_loop();
+                }
+                let root = build_root(seed, turns, false);
+                let rep = build_repetition_root(seed);
+                let mut v = sequential(&root, depth);
+                v.extend(sequential(&rep, 1));
+                v
+            })
+        })
+        .collect();
+    let results: Vec<Vec<(u64, u64)>> = hs.into_iter().map(|h| h.join().unwrap()).collect();
+    let root = build_root(seed, turns, false);
+    let rep = build_repetition_root(seed);
+    let mut expected = sequential(&root, depth);
+    expected.extend(sequential(&rep, 1));
+    let bad = results.iter().filter(|r| **r != expected).count();
+    (bad, expected.len() * n)
 }
